@@ -61,7 +61,8 @@ pub struct Framing {
     pub hdr_flags: u8,
 }
 pub fn headers_frames(stream: u32, block: &[u8], f: &Framing) -> Vec<u8> {
-    let mut cuts: Vec<usize> = f.splits.iter().copied().filter(|&c| c <= block.len()).collect();
+    // (usize::MAX stands for "behind the last byte": the last fragment is then an empty CONTINUATION frame)
+    let mut cuts: Vec<usize> = f.splits.iter().map(|&c| if c == usize::MAX { block.len() } else { c }).filter(|&c| c <= block.len()).collect();
     cuts.sort();
     let mut pieces = vec![];
     let mut prev = 0;
